@@ -2,7 +2,7 @@
 """Run every seeded change under SEEDS (default /verif/seeded, else /tmp/seeds) against the quick check of the property it
 was written for (and the other checks recorded as catching it), one after the other, each applied to /repo and reverted.
 
-usage: tools/seed_sweep.py [--src DIR] [--match SUBSTR] [--out FILE]
+usage: tools/seed_sweep.py [--src DIR] [--match SUBSTR] [--prefix STR] [--out FILE]
 Writes one JSON line per seed to FILE (default /verif/seeded/sweep.jsonl) and a summary to stdout.
 """
 import json
@@ -21,10 +21,13 @@ def main():
         i = args.index("--src"); src = args[i + 1]; del args[i:i + 2]
     if "--match" in args:
         i = args.index("--match"); match = args[i + 1]; del args[i:i + 2]
+    prefix = ""
+    if "--prefix" in args:
+        i = args.index("--prefix"); prefix = args[i + 1]; del args[i:i + 2]
     if "--out" in args:
         i = args.index("--out"); out = args[i + 1]; del args[i:i + 2]
     table = json.load(open(os.path.join(VERIF, "tools", "seed_table.json")))
-    seeds = sorted(d for d in os.listdir(src) if os.path.isfile(os.path.join(src, d, "patch.diff")) and match in d)
+    seeds = sorted(d for d in os.listdir(src) if os.path.isfile(os.path.join(src, d, "patch.diff")) and match in d and d.startswith(prefix))
     missed = []
     with open(out, "a") as fh:
         for sid in seeds:
